@@ -55,6 +55,11 @@ func emitSpecs(c *ctx, forLexing bool) []emitSpec {
 	add("shadowed-two", "grammar shadowt;\nAA = /x|y/\nBB = /(z)/\nNUM = /[0-9]+/\nFLOAT = /[0-9]+\\.[0-9]+/\nstart = {\"x\" | \"y\" | \"z\" | AA | BB | NUM | FLOAT};\n")
 	add("predefs", "grammar predefs;\nWS = $WS\nLETTER = $LETTER\nNUMBER = $NUMBER\nSTRING = $STRING\nCOMMENT = $COMMENT\nstart = {WS | LETTER | NUMBER | STRING | COMMENT | \"id\"};\n")
 	add("predef-id", "grammar pid;\nID = $ID\nDIGIT = $DIGIT\nstart = {ID | DIGIT | \"while\" | \"_\"};\n")
+	if !forLexing {
+		add("nullable-star", "grammar nstar;\nAS = /a*/\nstart = {AS | \"b\"};\n")
+		add("nullable-opt", "grammar nopt;\nSIGN = /(\\+|-)?/\nNUM = /[0-9]+/\nstart = {SIGN | NUM};\n")
+		add("nullable-loop", "grammar nloop;\nABS = /(ab)*/\nstart = {ABS | \"c\"};\n")
+	}
 	add("nows", "grammar nows;\nstart = {\"a\" | \"b\" | \"ab\" | \"abc\"};\n")
 	add("skipnames", "grammar skipnames;\nWS = /[ ]+/\nEOL = /;/\nCOMMENT = /#[a-z ]*/\nID = /[a-z]+/\nstart = {ID | WS | EOL | COMMENT};\n")
 	add("blank-tokens", "grammar blanks;\nIND = / [a-z]/\nID = /[a-z]+/\nstart = {IND | ID | \"\\x\"};\n")
@@ -225,6 +230,22 @@ func (c *chunkReader) Read(p []byte) (int, error) {
 	if len(c.data) == 0 {
 		return 0, io.EOF
 	}
+	if c.n < 0 {
+		// a reader that reports the end of the input together with the last bytes (allowed by io.Reader; gzip does it)
+		k := -c.n
+		if k > len(p) {
+			k = len(p)
+		}
+		if k >= len(c.data) {
+			k = len(c.data)
+			copy(p, c.data[:k])
+			c.data = nil
+			return k, io.EOF
+		}
+		copy(p, c.data[:k])
+		c.data = c.data[k:]
+		return k, nil
+	}
 	k := c.n
 	if k > len(p) {
 		k = len(p)
@@ -282,7 +303,7 @@ const driverCase = `			case %d:
 				}
 				data, _ := hex.DecodeString(rq.Input)
 				var src io.Reader = strings.NewReader(string(data))
-				if rq.Chunk > 0 {
+				if rq.Chunk != 0 {
 					src = &chunkReader{data: data, n: rq.Chunk}
 				}
 				l, err := p%d.New("in", src)
